@@ -7,6 +7,7 @@ import FemtoVerif.Driver.C15
 import FemtoVerif.Driver.C14
 import FemtoVerif.Driver.C04
 import FemtoVerif.Driver.C10
+import FemtoVerif.Driver.C16
 open Lean
 
 namespace Femto.Driver
@@ -31,6 +32,7 @@ def dispatch (op : String) (j : Json) : Except String Json :=
   | "c04.chain" => C04.chain j
   | "c04.sbend" => C04.sbend j
   | "c10.addpath" => C10.addpath j
+  | "c16.history" => C16.history j
   | _ => .error s!"unknown op {op}"
 
 def handleLine (line : String) : String :=
